@@ -80,7 +80,48 @@ def run_one(m):
         shutil.rmtree(t, ignore_errors=True)
 
 
+def run_benign(m):
+    """All checks must stay silent on a behaviour-preserving edit."""
+    t, dst = scratch_copy()
+    try:
+        err = apply(m, dst)
+        if err:
+            return m["name"], "BROKEN-MUTANT", err
+        env = dict(os.environ)
+        env["VERIF_REPO"] = dst
+        env["VERIF_EVIDENCE_DIR"] = os.path.join(t, "evidence")
+        r = subprocess.run([os.path.join(VERIF, "vf"), "all", "--tier", "quick"], cwd=VERIF, env=env, stdout=subprocess.PIPE, stderr=subprocess.STDOUT, text=True)
+        if "does not compile in configuration" in r.stdout:
+            return m["name"], "NOCOMPILE", r.stdout[-1500:]
+        if r.returncode != 0 or "VIOLATION" in r.stdout:
+            lines = [l for l in r.stdout.splitlines() if l.startswith(("VIOLATION", "  rule="))]
+            return m["name"], "FALSE-ALARM", "\n".join(lines[:12]) + "\n" + "\n".join(l for l in r.stdout.splitlines() if l.strip().startswith(("rule=",)) )[:0]
+        return m["name"], "SILENT", ""
+    finally:
+        shutil.rmtree(t, ignore_errors=True)
+
+
+def main_benign(argv):
+    sys.path.insert(0, VERIF)
+    from mutants import benign
+    ms = benign.BENIGN
+    if argv:
+        ms = [m for m in ms if any(a in m["name"] for a in argv)]
+    jobs = int(os.environ.get("VF_JOBS", "3"))
+    bad = 0
+    with ThreadPoolExecutor(max_workers=jobs) as ex:
+        for name, status, detail in ex.map(run_benign, ms):
+            print("%-14s %s" % (status, name))
+            if status != "SILENT":
+                bad += 1
+                print("    " + detail.replace("\n", "\n    ")[-2500:])
+    print("benign: %d edits, %d not silent" % (len(ms), bad))
+    return 1 if bad else 0
+
+
 def main(argv):
+    if argv and argv[0] == "--benign":
+        return main_benign(argv[1:])
     muts = load_mutants()
     if argv:
         muts = [m for m in muts if any(a in m["name"] for a in argv)]
